@@ -83,8 +83,9 @@ func implString(v interface{}) string {
 }
 
 var sessNames = []string{"x", "y", "s", "flag", "o", "u"}
-var sessLocals = []string{"$a", "$b", "$c"}
-var sessKeys = []string{"k1", "k2", "x", "$a"}
+var sessLocals = []string{"$a", "$b", "$c", "$"} // "$" alone is a $-prefixed name too
+var sessKeys = []string{"k1", "k2", "x", "$a", "user", "user.name", "v1.2", ""}
+var sessStrings = []string{"a", "b", "ab", "k1", "", "zz", "a b", " ", "héllo", "小明", "true", "null", "$a", "x", "A"}
 var sessStubs = []string{"rec", "put", "get", "fail", "pair"}
 
 // ---------------------------------------------------------------- harness side of one runner
@@ -370,7 +371,7 @@ func (g *mgen) leaf(want int) (*MNode, MV) {
 			v = mNum([]int64{9007199254740993, 123456789012345679, 4611686018427387905}[g.s.Intn(3)])
 		}
 	case wStr:
-		v = mStr([]string{"a", "b", "ab", "k1", ""}[g.s.Intn(5)])
+		v = mStr(sessStrings[g.s.Intn(len(sessStrings))])
 	default:
 		v = mBool(g.s.Bool(1, 2))
 	}
@@ -562,7 +563,7 @@ func (sr *sessRunner) randomValue(s *Stream) MV {
 	case 0:
 		return mNum(int64(s.Intn(50)))
 	case 1:
-		return mStr([]string{"a", "b", "zz", "k1"}[s.Intn(4)])
+		return mStr(sessStrings[s.Intn(len(sessStrings))])
 	case 2:
 		return mBool(s.Bool(1, 2))
 	case 3:
@@ -678,6 +679,9 @@ func (sr *sessRunner) opStore(s *Stream) {
 	sr.ops++
 	k := sessKeys[s.Intn(len(sessKeys))]
 	v := sr.randomValue(s)
+	if k == "user" && s.Bool(1, 2) {
+		v = mMap(map[string]MV{"name": mStr("tom"), "id": mNum(int64(s.Intn(9)))})
+	}
 	sr.hist = append(sr.hist, "STORE("+k+","+v.String()+")")
 	sr.api("Set("+k+")", func() { sr.r.Set(k, v.toGo(3)) })
 	sr.m.aux[k] = v
@@ -700,7 +704,7 @@ func (sr *sessRunner) opFetch(s *Stream) {
 
 // probeLocals reads every local and every data name through evaluation and compares with the model.
 func (sr *sessRunner) probeLocals(when string) {
-	for _, n := range append(append([]string{}, sessLocals...), "x", "y", "s", "flag") {
+	for _, n := range append(append([]string{}, sessLocals...), sessNames[:4]...) {
 		arr, err, pan, perr := sr.resolve("[" + n + "]") // inside an array numbers keep all their digits
 		var v interface{}
 		if a1, isArr := arr.([]interface{}); isArr && len(a1) == 1 {
@@ -849,11 +853,39 @@ func (sr *sessRunner) opEvalAgain() {
 	sr.rc.probe("same_tree_evaluated_again_on_the_same_runner")
 }
 
+// opFailBurst: a long-lived runner meets many failing evaluations in a row (the same deeply
+// nested formula that ends in an assignment to something that is not a local); afterwards it
+// must behave as before.
+func (sr *sessRunner) opFailBurst(s *Stream) {
+	k := 150 + s.Intn(450)
+	depth := 6 + s.Intn(10)
+	n := &MNode{Op: nBadAssign, Raw: []string{"x", "o.a", "'s'", "y"}[s.Intn(4)], Kids: []*MNode{lit(mNum(int64(s.Intn(9))))}}
+	for i := 0; i < depth; i++ {
+		if i%2 == 0 {
+			n = &MNode{Op: nParen, Kids: []*MNode{n}}
+		} else {
+			n = &MNode{Op: nArray, Kids: []*MNode{lit(mNum(int64(i))), n}}
+		}
+	}
+	text := n.text(cxTop)
+	sr.hist = append(sr.hist, "FAIL-BURST("+strconv.Itoa(k)+" x `"+text+"`)")
+	sr.ops++
+	for i := 0; i < k && len(sr.viol) == 0; i++ {
+		sr.evals++
+		sr.evalChecked(n, text, 0, false)
+	}
+	sr.rc.probe("burst_of_failing_evaluations_on_one_runner")
+}
+
 func (sr *sessRunner) opEval(s *Stream, maxNodes, maxDepth int, faults bool, enumerate bool) {
 	sr.ops++
 	sr.evals++
 	n := genSessionFormula(s, sr.m, maxNodes, maxDepth, true, sr.rc.opt["nullargs"] == "1")
 	text := n.text(cxTop)
+	if s.Intn(4) == 0 {
+		text = decorateWS(s, text) // the same formula written with other white space
+		sr.rc.probe("formula_written_with_unusual_white_space")
+	}
 	sr.last, sr.lastText = n, text
 	// how many host calls does the fault-free evaluation make?
 	dry := &mEnv{m: sr.m.clone()}
@@ -905,8 +937,21 @@ type sessSample struct {
 	Sched    []string   `json:"first_context_switches,omitempty"`
 }
 
+// drawNames varies, per run, how the data names and locals are spelt: pairs that differ only in
+// case, names outside ASCII, a digit or a second $ after the $.
+func drawNames(s *Stream) {
+	sessNames[0] = []string{"x", "x", "x", "X", "名前"}[s.Intn(5)]
+	sessNames[1] = []string{"y", "y", "X", "Y", "x1"}[s.Intn(5)]
+	if sessNames[1] == sessNames[0] {
+		sessNames[1] = "y"
+	}
+	sessLocals[1] = []string{"$b", "$b", "$A", "$1", "$中文"}[s.Intn(5)]
+	sessLocals[2] = []string{"$c", "$c", "$$", "$_c", "$a1"}[s.Intn(5)]
+}
+
 func runSessions(rc *RunCtx) {
 	pl := rc.tape.Stream("plan")
+	drawNames(rc.tape.Stream("names"))
 	maxOps, maxNodes, maxDepth := 12, 15, 4
 	if rc.thorough {
 		maxOps, maxNodes, maxDepth = 40, 40, 7
@@ -938,7 +983,14 @@ func runSessions(rc *RunCtx) {
 	}
 	body := func(sr *sessRunner, n int) {
 		s := sr.st
+		burstAt := -1
+		if s.Intn(24) == 0 {
+			burstAt = s.Intn(n)
+		}
 		for k := 0; k < n; k++ {
+			if k == burstAt {
+				sr.opFailBurst(s)
+			}
 			switch r := s.Intn(20); {
 			case r < 3:
 				sr.opSetThis(s)
